@@ -48,4 +48,19 @@ PROPS = {
             "usize is 64-bit",
         ],
     },
+    "C07": {
+        "level": "proof",
+        "title": "CCSDS AR4JA parity-check matrices conform to CCSDS 131.0-B",
+        "verus": [
+            {"unit": "ccsds", "template": "ccsds/unit.rs.in", "rlimit": 100, "canary": True, "timeout": 1200},
+        ],
+        "kani": {"quick": [], "thorough": []},
+        "witness": "c07",
+        "assumptions": [
+            "Blue Book Table 7-2 (M) and theta_k as transcribed in specs/ccsds/unit.rs.in",
+            "phi_k(j, M) pinned to the tree the check was written against (specs/ccsds/phi_pinned.rs.in), not independently transcribed",
+            "SparseMatrix::new trusted (external_body)",
+            "usize is 64-bit",
+        ],
+    },
 }
